@@ -826,7 +826,11 @@ func runC03(c *core.Ctx) {
 			{"nothing loaded", func() *ggql.Root { return ggql.NewRoot(c16Dummy{}) }},
 			{"nothing loaded, nil resolver", func() *ggql.Root { return ggql.NewRoot(nil) }},
 			{"only a refused load", func() *ggql.Root { r := ggql.NewRoot(c16Dummy{}); _ = r.ParseString("type Query { a: Zq7 }"); return r }},
-			{"only a load refused at validation", func() *ggql.Root { r := ggql.NewRoot(c16Dummy{}); _ = r.ParseString("type Query { a: Int }\ntype Bad7 {}"); return r }},
+			{"only a load refused at validation", func() *ggql.Root {
+				r := ggql.NewRoot(c16Dummy{})
+				_ = r.ParseString("type Query { a: Int }\ntype Bad7 {}")
+				return r
+			}},
 		}
 		for _, m := range mk {
 			for _, rq := range []string{"{ a }", "{ __typename }", "{ __schema { types { name } } }", "mutation { a }", "subscription { a }", "query Q($v: Int) { a(x: $v) }", "{", ""} {
@@ -864,6 +868,76 @@ func runC03(c *core.Ctx) {
 				}
 			}); pi != nil {
 				st.panicked("executable-returned-with-error", "ParseExecutableString+String", pi, rq)
+			}
+		}
+	}
+	// ---- (iii-m) block-string descriptions: every text of <= 3 lines over an alphabet of indented, blank and white-space-only
+	// lines (shorter and longer than the indentation of their neighbours, with CR), closing quotes indented or not, as the
+	// description of a type, of a field and of an argument
+	if own() {
+		lines := []string{"", " ", "  ", "\t", "      ", "    text", "  text", "text", "   \r", "    - item"}
+		var texts []string
+		for _, a := range lines {
+			texts = append(texts, a)
+			for _, b := range lines {
+				texts = append(texts, a+"\n"+b)
+				for _, d := range lines {
+					texts = append(texts, a+"\n"+b+"\n"+d)
+				}
+			}
+		}
+		for _, t := range texts {
+			for _, tail := range []string{"", "\n", "\n  ", "\n        "} {
+				d := "\"\"\"" + t + tail + "\"\"\""
+				st.loadSDLCase("block-description", "  "+d+"\n  type Query {\n    "+d+"\n    f(\n      "+d+"\n      a: Int): Int\n  }\n")
+			}
+		}
+	}
+	// ---- (iii-n) reflected methods whose parameters are typed Go slices, given lists with null members (literal, variable,
+	// variable default, unset variable as a member), empty lists, null and nothing
+	if own() {
+		const sdl = "type Query { strs(l: [String]): String ints(l: [Int]): String rows(l: [[String]]): String any(l: [String]): String }\n"
+		lists := []string{`["a", null]`, `[null]`, `[]`, `null`, `["a", "b"]`, `[null, "z", null]`}
+		for _, f := range []string{"strs", "ints", "rows", "any"} {
+			for _, l := range lists {
+				lit := l
+				if f == "ints" {
+					lit = strings.NewReplacer(`"a"`, "1", `"b"`, "2", `"z"`, "3").Replace(l)
+				}
+				if f == "rows" {
+					lit = "[" + l + ", null]"
+				}
+				for mode := 0; mode < 4; mode++ {
+					var text string
+					var vars map[string]interface{}
+					switch mode {
+					case 0:
+						text = "{ " + f + "(l: " + lit + ") }"
+					case 1:
+						v, _ := ggql.ParseValueString(lit)
+						text, vars = "query Q($v: "+map[string]string{"strs": "[String]", "ints": "[Int]", "rows": "[[String]]", "any": "[String]"}[f]+") { "+f+"(l: $v) }", map[string]interface{}{"v": v}
+					case 2:
+						text = "query Q($v: " + map[string]string{"strs": "[String]", "ints": "[Int]", "rows": "[[String]]", "any": "[String]"}[f] + " = " + lit + ") { " + f + "(l: $v) }"
+					default:
+						text = "query Q($u: " + map[string]string{"strs": "String", "ints": "Int", "rows": "[String]", "any": "String"}[f] + ") { " + f + "(l: [$u]) }"
+					}
+					if !c.NextCase("typed-slice-parameter ResolveString: " + text + fmt.Sprintf(" vars=%v", vars)) {
+						continue
+					}
+					c.Eval()
+					c.R.Distinct++
+					c.Nontrivial()
+					if pi := core.Safe(func() {
+						root := ggql.NewRoot(&C03SliceRoot{Query: &C03SliceQuery{}})
+						if err := root.ParseString(sdl); err != nil {
+							panic(core.EngineError{Msg: "C03 typed-slice schema refused: " + err.Error()})
+						}
+						res := root.ResolveString(text, "", vars)
+						_ = ggql.WriteJSONValue(io.Discard, res, -1)
+					}); pi != nil {
+						st.panicked("typed-slice-parameter", "ResolveString", pi, text)
+					}
+				}
 			}
 		}
 	}
@@ -1000,6 +1074,15 @@ func (r *c03OddAny) Nth(list interface{}, i int) (interface{}, error) {
 	}
 	return nil, fmt.Errorf("no element %d", i)
 }
+
+// family iii-n: reflected methods with typed slice parameters
+type C03SliceRoot struct{ Query *C03SliceQuery }
+type C03SliceQuery struct{}
+
+func (*C03SliceQuery) Strs(l []string) string     { return fmt.Sprint(len(l)) }
+func (*C03SliceQuery) Ints(l []int) string        { return fmt.Sprint(len(l)) }
+func (*C03SliceQuery) Rows(l [][]string) string   { return fmt.Sprint(len(l)) }
+func (*C03SliceQuery) Any(l []interface{}) string { return fmt.Sprint(len(l)) }
 
 // C03In is the Go struct an application registers for the input type In (family iii-f).
 type C03In struct {
